@@ -31,6 +31,69 @@ from typing import Any
 
 import numpy as np
 
+def operands(nd):
+    """operand node indices of a computing node (not the edges of a send holder)"""
+    out = [nd[k] for k in ("a", "b") if k in nd]
+    out += list(nd.get("args", ()))
+    return out
+
+
+def edges(nd):
+    """every child node index: operands, and payload + pass-through of a send holder"""
+    return operands(nd) + [nd[k] for k in ("data", "pass") if k in nd]
+
+
+DTYPES = ["int64", "float64", "float32", "complex128"]
+KINDS = ["concatenate", "stack", "reshape", "axis_permutation", "roll", "basic_index", "adv_index",
+         "einsum", "index_lambda"]
+
+
+VEC_KINDS = ("roll", "basic_index", "adv_index", "einsum", "index_lambda")
+
+
+def spec_dtype(nodes, i, memo=None):
+    """NumPy dtype name of node i, by NumPy's promotion rules"""
+    if memo is None:
+        memo = {}
+    if i in memo:
+        return memo[i]
+    nd = nodes[i]
+    op = nd["op"]
+    if op in ("input", "data", "recv"):
+        d = np.dtype(nd.get("dtype", "int64"))
+    elif op in ("add", "sub", "mul"):
+        d = np.result_type(spec_dtype(nodes, nd["a"], memo), spec_dtype(nodes, nd["b"], memo))
+    elif op in ("addc", "mulc", "alias"):
+        d = np.dtype(spec_dtype(nodes, nd["a"], memo))
+    elif op == "send":
+        d = np.dtype(spec_dtype(nodes, nd["pass"], memo))
+    elif op == "flat":
+        d = np.dtype(spec_dtype(nodes, nd["args"][0], memo))
+    elif op == "kind":
+        if nd["kind"] == "adv_index":
+            d = np.dtype(spec_dtype(nodes, nd["args"][0], memo))
+        else:
+            d = np.result_type(*[spec_dtype(nodes, c, memo) for c in nd["args"]])
+    else:
+        raise ValueError(op)
+    memo[i] = str(d)
+    return memo[i]
+
+
+def spec_is_vec(nodes, i, n):
+    nd = nodes[i]
+    op = nd["op"]
+    if op == "recv":
+        return list(nd.get("shape", [n])) == [n]
+    if op == "kind":
+        return nd["kind"] in VEC_KINDS
+    if op == "send":
+        return spec_is_vec(nodes, nd["pass"], n)
+    if op == "alias":
+        return spec_is_vec(nodes, nd["a"], n)
+    return True
+
+
 TOPOLOGIES = ["none", "ring", "star", "chain", "multi", "random", "pingpong"]
 MAG_LIMIT = 1 << 40
 
@@ -94,6 +157,28 @@ def _fresh_tag_desc(rng: random.Random, k: int, style: str):
 
 # --------------------------------------------------------------------------- generation
 
+def _dummy_value(nodes, i, n):
+    """shape-carrying dummy evaluation of node i (zeros), for shapes of high-level kinds"""
+    nd = nodes[i]
+    op = nd["op"]
+    if op == "kind":
+        args = [_dummy_value(nodes, c, n) for c in nd["args"]]
+        if nd["kind"] == "adv_index":
+            args[1] = np.zeros(n, dtype=np.int64)
+        return kind_value(nd["kind"], args, n)
+    if op == "recv":
+        return np.zeros(tuple(nd.get("shape", [n])))
+    if op == "send":
+        return _dummy_value(nodes, nd["pass"], n)
+    if op in ("alias", "addc", "mulc", "add", "sub", "mul"):
+        return _dummy_value(nodes, nd["a"], n)
+    if op == "flat":
+        return np.zeros(n)
+    if op == "data":
+        return np.zeros(len(nd["values"]))
+    return np.zeros(n)
+
+
 class _Builder:
     def __init__(self, rng, nranks, n, tagstyle):
         self.rng = rng
@@ -105,13 +190,13 @@ class _Builder:
         self.tags: list = []
         self.ncomm = 0
         self.used = [set() for _ in range(nranks)]   # node indices with a user
+        self.kind_prob = 0.0
 
     def add(self, r, node, mag):
         self.ranks[r]["nodes"].append(node)
         self.mag[r].append(mag)
-        for k in ("a", "b", "data", "pass"):
-            if k in node:
-                self.used[r].add(node[k])
+        for c in edges(node):
+            self.used[r].add(c)
         return len(self.ranks[r]["nodes"]) - 1
 
     def new_tag(self, reuse_ok=True):
@@ -119,7 +204,11 @@ class _Builder:
         return len(self.tags) - 1
 
     def pool(self, r):
-        return list(range(len(self.ranks[r]["nodes"])))
+        nodes = self.ranks[r]["nodes"]
+        return [i for i in range(len(nodes)) if spec_is_vec(nodes, i, self.n)]
+
+    def dtype(self, r, i):
+        return spec_dtype(self.ranks[r]["nodes"], i)
 
     def pick(self, r, prefer_recent=True):
         p = self.pool(r)
@@ -152,7 +241,13 @@ class _Builder:
                 node = {"op": "mulc", "a": a, "c": c}
         if rng.random() < 0.3:
             node["stored"] = True
-        return self.add(r, node, m)
+        idx = self.add(r, node, m)
+        if self.dtype(r, idx) == "float32" and m > (1 << 20):
+            # keep float32 arithmetic exact: replace by a small step
+            nodes = self.ranks[r]["nodes"]
+            nodes[idx] = {"op": "addc", "a": a, "c": 1, **({"stored": True} if node.get("stored") else {})}
+            self.mag[r][idx] = self.mag[r][a] + 1
+        return idx
 
     def comm(self, src, dst, data=None, tag=None, fresh_compute=None, stored_recv=None):
         """one message src -> dst; returns (send holder index on src, recv index on dst)"""
@@ -169,14 +264,49 @@ class _Builder:
             pas = data
         else:
             pas = self.pick(src, prefer_recent=False)
+        if self.kind_prob and rng.random() < self.kind_prob:
+            # the send buffer itself is a high-level node ("bare" payload)
+            data = self.kind_node(src, data, stored=rng.random() < 0.3)
         h = self.add(src, {"op": "send", "data": data, "dst": dst, "tag": tag, "pass": pas},
                      self.mag[src][pas])
+        snodes = self.ranks[src]["nodes"]
+        shape = list(np.shape(_dummy_value(snodes, data, self.n)))
         rnode = {"op": "recv", "src": src, "tag": tag, "variant": 0}
+        dt = self.dtype(src, data)
+        if dt != "int64":
+            rnode["dtype"] = dt
+        if shape != [self.n]:
+            rnode["shape"] = shape
         if stored_recv if stored_recv is not None else rng.random() < 0.15:
             rnode["stored"] = True
         v = self.add(dst, rnode, self.mag[src][data])
+        if shape != [self.n]:
+            v = self.add(dst, {"op": "flat", "args": [v]}, self.mag[src][data])
         self.ncomm += 1
         return h, v
+
+    def kind_node(self, r, a, kind=None, stored=False):
+        """a high-level node (Concatenate, Stack, Reshape, …) over vector `a` of rank r"""
+        rng = self.rng
+        kind = kind or rng.choice(KINDS)
+        if kind == "adv_index":
+            perm = list(range(self.n))
+            rng.shuffle(perm)
+            b = self.add(r, {"op": "data", "values": perm}, self.n)
+        else:
+            same = [i for i in self.pool(r) if self.dtype(r, i) == self.dtype(r, a) and self.mag[r][i] <= (1 << 18)]
+            b = rng.choice(same) if same and rng.random() < 0.5 else a
+        m = self.mag[r][a]
+        if kind == "einsum":
+            m = m * self.mag[r][b]
+        elif kind == "index_lambda":
+            m = m + self.mag[r][b]
+        if m > MAG_LIMIT or (self.dtype(r, a) == "float32" and m > (1 << 20)):
+            kind, b, m = "roll", a, self.mag[r][a]
+        node = {"op": "kind", "kind": kind, "args": [a, b] if kind not in ("reshape", "roll", "basic_index") else [a]}
+        if stored:
+            node["stored"] = True
+        return self.add(r, node, m)
 
     def finish(self, collide_names=False):
         """outputs: every node without a user that must stay alive (holders, receives) is
@@ -245,9 +375,14 @@ def generate(seed: int, index: int, profile: str = "default") -> dict:
     n = rng.choice([1, 2, 3])
     tagstyle = rng.choice(["int", "str", "mixed", "mixed"])
     b = _Builder(rng, nranks, n, tagstyle)
+    dstyle = rng.choice(["int", "int", "mixed", "mixed", "float64", "complex128", "float32"])
+    b.kind_prob = rng.choice([0.0, 0.0, 0.3, 0.6])
     for r in range(nranks):
         for nm in rng.choice([["x"], ["x", "y"]]):
             nd = {"op": "input", "name": nm}
+            dt = "int64" if dstyle == "int" else rng.choice(DTYPES) if dstyle == "mixed" else dstyle
+            if dt != "int64":
+                nd["dtype"] = dt
             if rng.random() < 0.1:
                 nd["stored"] = True
             b.add(r, nd, 4)
@@ -368,9 +503,7 @@ def live_nodes(rk) -> list[int]:
             continue
         seen.add(i)
         nd = nodes[i]
-        for k in ("a", "b", "data", "pass"):
-            if k in nd:
-                stack.append(nd[k])
+        stack.extend(edges(nd))
     return sorted(seen)
 
 
@@ -388,8 +521,11 @@ def node_key(rk, i, memo=None):
         k = ("input", nd["name"], st)
     elif op == "data":
         k = ("data", i, st)          # data wrappers are compared by identity of their buffer
+    elif op in ("kind", "flat"):
+        k = (op, nd.get("kind"), tuple(node_key(rk, c, memo) for c in nd["args"]), i if st else False)
     elif op == "recv":
-        k = ("recv", nd["src"], nd["tag"], nd.get("variant", 0), st)
+        k = ("recv", nd["src"], nd["tag"], nd.get("variant", 0), st, nd.get("dtype", "int64"),
+             tuple(nd.get("shape", ())))
     elif op == "alias":
         k = node_key(rk, nd["a"], memo)
     elif op == "send":
@@ -437,9 +573,8 @@ def recv_deps(rk, i, memo=None):
         res = recv_deps(rk, nd["pass"], memo)
     else:
         res = frozenset()
-        for k in ("a", "b"):
-            if k in nd:
-                res |= recv_deps(rk, nd[k], memo)
+        for c in operands(nd):
+            res |= recv_deps(rk, c, memo)
     memo[i] = res
     return res
 
@@ -473,9 +608,8 @@ def _all_recvs_below(rk, i, memo):
         return memo[i]
     nd = rk["nodes"][i]
     res = frozenset([i]) if nd["op"] == "recv" else frozenset()
-    for k in ("a", "b", "data", "pass"):
-        if k in nd:
-            res |= _all_recvs_below(rk, nd[k], memo)
+    for c in edges(nd):
+        res |= _all_recvs_below(rk, c, memo)
     memo[i] = res
     return res
 
@@ -490,9 +624,7 @@ def _reach(rk, i):
             continue
         seen.add(j)
         nd = rk["nodes"][j]
-        for k in ("a", "b", "data", "pass"):
-            if k in nd:
-                stack.append(nd[k])
+        stack.extend(edges(nd))
     return seen
 
 
@@ -553,10 +685,53 @@ def _strip(rk, i):
 
 # --------------------------------------------------------------------------- reference evaluation
 
+def cast_small(vals, dtype):
+    """small integers as an array of `dtype` (complex: with an imaginary part, bool: parity)"""
+    a = np.array(vals, dtype=np.int64)
+    dt = np.dtype(dtype)
+    if dt.kind == "c":
+        return (a + 1j * (a[::-1] + 1)).astype(dt)
+    if dt.kind == "b":
+        return a % 2 == 0
+    return a.astype(dt)
+
+
+def input_dtype(spec, rank, name):
+    for nd in spec["ranks"][rank]["nodes"]:
+        if nd["op"] == "input" and nd["name"] == name:
+            return nd.get("dtype", "int64")
+    return "int64"
+
+
 def input_value(spec, rank, name):
-    """deterministic small integer data for input `name` of `rank`"""
+    """deterministic small data for input `name` of `rank`, of the input's dtype"""
     rng = random.Random(f"in:{spec.get('seed', 0)}:{spec.get('index', 0)}:{rank}:{name}")
-    return np.array([rng.randint(-3, 3) for _ in range(spec["n"])], dtype=np.int64)
+    return cast_small([rng.randint(-3, 3) for _ in range(spec["n"])], input_dtype(spec, rank, name))
+
+
+def kind_value(kind, args, n):
+    """NumPy meaning of a high-level node kind applied to vectors"""
+    a = args[0]
+    b = args[1] if len(args) > 1 else args[0]
+    if kind == "concatenate":
+        return np.concatenate([a, b])
+    if kind == "stack":
+        return np.stack([a, b])
+    if kind == "reshape":
+        return a.reshape(n, 1)
+    if kind == "axis_permutation":
+        return np.transpose(np.stack([a, b]))
+    if kind == "roll":
+        return np.roll(a, 1)
+    if kind == "basic_index":
+        return a[::-1]
+    if kind == "adv_index":
+        return a[b]                      # b: integer index vector
+    if kind == "einsum":
+        return np.einsum("i,i->i", a, b)
+    if kind == "index_lambda":
+        return a + b
+    raise ValueError(kind)
 
 
 def input_args(spec, rank):
@@ -568,7 +743,7 @@ class RefUndefined(Exception):
     pass
 
 
-def reference(spec):
+def reference(spec, with_nodes=False):
     """Evaluate the unpartitioned global data-flow graph across ranks.  Returns
     [ {output name: ndarray} per rank ].  Independent of pytato."""
     memo: dict[tuple[int, int], np.ndarray] = {}
@@ -587,7 +762,11 @@ def reference(spec):
         if op == "input":
             v = input_value(spec, r, nd["name"])
         elif op == "data":
-            v = np.array(nd["values"], dtype=np.int64)
+            v = cast_small(nd["values"], nd.get("dtype", "int64"))
+        elif op == "kind":
+            v = kind_value(nd["kind"], [ev(r, c) for c in nd["args"]], spec["n"])
+        elif op == "flat":
+            v = ev(r, nd["args"][0]).reshape(-1)[:spec["n"]]
         elif op == "recv":
             src = nd["src"]
             if not (0 <= src < spec["nranks"]):
@@ -618,7 +797,13 @@ def reference(spec):
         memo[key] = v
         return v
 
-    return [{nm: ev(r, o) for nm, o in rk["outputs"]} for r, rk in enumerate(spec["ranks"])]
+    res = [{nm: ev(r, o) for nm, o in rk["outputs"]} for r, rk in enumerate(spec["ranks"])]
+    if with_nodes:
+        for r, rk in enumerate(spec["ranks"]):
+            for i in live_nodes(rk):
+                ev(r, i)
+        return res, memo
+    return res
 
 
 # --------------------------------------------------------------------------- pytato construction
@@ -691,6 +876,30 @@ def _make_nodeid(k):
     return _nodeid_class()(k)
 
 
+def _build_kind(pt, kind, args, n):
+    a = args[0]
+    b = args[1] if len(args) > 1 else args[0]
+    if kind == "concatenate":
+        return pt.concatenate([a, b])
+    if kind == "stack":
+        return pt.stack([a, b])
+    if kind == "reshape":
+        return pt.reshape(a, (n, 1))
+    if kind == "axis_permutation":
+        return pt.transpose(pt.stack([a, b]))
+    if kind == "roll":
+        return pt.roll(a, 1)
+    if kind == "basic_index":
+        return a[::-1]
+    if kind == "adv_index":
+        return a[b]
+    if kind == "einsum":
+        return pt.einsum("i,i->i", a, b)
+    if kind == "index_lambda":
+        return a + b
+    raise ValueError(kind)
+
+
 def build(spec, rank):
     """the DictOfNamedArrays of `rank` (fresh pytato objects on every call)"""
     import pytato as pt
@@ -704,14 +913,20 @@ def build(spec, rank):
     for nd in rk["nodes"]:
         op = nd["op"]
         if op == "input":
-            v = pt.make_placeholder(nd["name"], (n,), np.int64)
+            v = pt.make_placeholder(nd["name"], (n,), np.dtype(nd.get("dtype", "int64")))
         elif op == "data":
-            v = pt.make_data_wrapper(np.array(nd["values"], dtype=np.int64))      # unnamed
+            v = pt.make_data_wrapper(cast_small(nd["values"], nd.get("dtype", "int64")),      # unnamed
+                                     tags=frozenset([_nodeid_class()(len(vals))]))
+        elif op == "kind":
+            v = _build_kind(pt, nd["kind"], [vals[c] for c in nd["args"]], n)
+        elif op == "flat":
+            v = vals[nd["args"][0]].reshape(-1)[:n]
         elif op == "recv":
             extra = frozenset()
             if nd.get("variant", 0):
                 extra = frozenset([_Variant(nd["variant"])])
-            v = pt.make_distributed_recv(nd["src"], tags[nd["tag"]], (n,), np.int64, tags=extra)
+            v = pt.make_distributed_recv(nd["src"], tags[nd["tag"]], tuple(nd.get("shape", [n])),
+                                         np.dtype(nd.get("dtype", "int64")), tags=extra)
         elif op == "add":
             v = vals[nd["a"]] + vals[nd["b"]]
         elif op == "sub":
@@ -731,7 +946,7 @@ def build(spec, rank):
             raise ValueError(op)
         if nd.get("stored") and op not in ("alias",):
             v = v.tagged(ImplStored())
-            if op in ("add", "sub", "mul", "addc", "mulc"):
+            if op in ("add", "sub", "mul", "addc", "mulc", "kind", "flat"):
                 v = v.tagged(_nodeid_class()(len(vals)))
         vals.append(v)
     res = pt.make_dict_of_named_arrays({nm: vals[o] for nm, o in rk["outputs"]})
@@ -813,11 +1028,15 @@ def apply_fault(spec, kind, site, variant=0):
     elif kind == "send_to_nowhere":
         nd["dst"] = nr + 1
     elif kind == "drop_recv":
+        dt = nd.get("dtype")
         nd.clear()
         nd.update({"op": "input", "name": f"dropped{site}"})
+        if dt:
+            nd["dtype"] = dt
     elif kind == "dup_recv":
         rk["nodes"].append({"op": "recv", "src": nd["src"], "tag": nd["tag"],
-                            "variant": nd.get("variant", 0) + 1 + variant})
+                            "variant": nd.get("variant", 0) + 1 + variant,
+                            **{k: nd[k] for k in ("dtype", "shape") if k in nd}})
         _add_output(rk, len(rk["nodes"]) - 1)
     elif kind == "retag_recv":
         sp["tags"].append(["s", f"faulttag{len(sp['tags'])}"])
@@ -839,7 +1058,14 @@ def apply_fault(spec, kind, site, variant=0):
         nodes = rk["nodes"]
         # nodes must stay topologically ordered: append the new payload and a new holder,
         # turn the old holder into an alias of its pass-through
-        nodes.append({"op": "add", "a": nd["data"], "b": rv})
+        da, db = nd["data"], rv
+        n_ = sp["n"]
+        if not (spec_is_vec(nodes, da, n_) and spec_is_vec(nodes, db, n_)):
+            nodes.append({"op": "flat", "args": [da]})
+            da = len(nodes) - 1
+            nodes.append({"op": "flat", "args": [db]})
+            db = len(nodes) - 1
+        nodes.append({"op": "add", "a": da, "b": db})
         newdata = len(nodes) - 1
         nodes.append({"op": "send", "data": newdata, "dst": nd["dst"], "tag": nd["tag"], "pass": nd["pass"]})
         pas = nd["pass"]
@@ -936,9 +1162,7 @@ def reuse_family():
             # receives that nothing on this rank uses must stay alive
             used = set()
             for nd in nodes:
-                for kk in ("a", "b", "data", "pass"):
-                    if kk in nd:
-                        used.add(nd[kk])
+                used.update(edges(nd))
             for i, nd in enumerate(nodes):
                 if nd["op"] == "recv" and i not in used:
                     outs.append([f"keep{i}", i])
@@ -1168,5 +1392,82 @@ def samearray_family():
 
 def families():
     """all hand-built families, as (profile, spec) — every spec carries its own 'profile'/'index'"""
-    for fam in (reuse_family, fanin_family, datawrapper_family, samearray_family):
+    for fam in (reuse_family, fanin_family, datawrapper_family, samearray_family, kinds_family):
         yield from fam()
+
+
+def kinds_family():
+    """Every high-level node kind as SEND BUFFER and as ImplStored intermediate crossing a part
+    boundary, "bare" (the node IS the buffer / stored array) and wrapped in arithmetic; several
+    dtypes incl. bool payloads.  Two ranks, ping-pong:
+      rank 0 part 0: K = kind(x, y) [stored]; sends K (bare) or K*2 (wrapped) to rank 1;
+      rank 1: receives, returns flat(recv)+1;  rank 0 part 1: output = flat(K) + recv  (K crosses
+      the part boundary as a stored array)."""
+    idx = 0
+    payload_kinds = KINDS + ["data_wrapper", "placeholder"]
+    for kind in payload_kinds:
+        for bare in (True, False):
+            for dt in ("float64", "complex128", "int64", "float32", "bool"):
+                if dt == "bool" and (not bare or kind in ("einsum", "index_lambda")):
+                    continue            # no arithmetic on bool payloads
+                n = 3
+                x = {"op": "input", "name": "x"}
+                y = {"op": "input", "name": "y"}
+                if dt != "int64":
+                    x["dtype"] = dt
+                    y["dtype"] = dt
+                r0 = [x, y]
+                if kind == "data_wrapper":
+                    r0.append({"op": "data", "values": [5, -2, 7], **({"dtype": dt} if dt != "int64" else {})})
+                    K = 2
+                elif kind == "placeholder":
+                    K = 0
+                elif kind == "adv_index":
+                    r0.append({"op": "data", "values": [2, 0, 1]})
+                    r0.append({"op": "kind", "kind": kind, "args": [0, 2], "stored": True})
+                    K = 3
+                else:
+                    args = [0] if kind in ("reshape", "roll", "basic_index") else [0, 1]
+                    r0.append({"op": "kind", "kind": kind, "args": args, "stored": True})
+                    K = 2
+                if bare:
+                    payload = K
+                else:
+                    r0.append({"op": "mulc", "a": K, "c": 2})
+                    payload = len(r0) - 1
+                r0.append({"op": "send", "data": payload, "dst": 1, "tag": 0, "pass": 0})
+                hold = len(r0) - 1
+                shape = list(np.shape(_dummy_value(r0, payload, n)))
+                pdt = spec_dtype(r0, payload)
+                rv = {"op": "recv", "src": 0, "tag": 0, "variant": 0}
+                if pdt != "int64":
+                    rv["dtype"] = pdt
+                if shape != [n]:
+                    rv["shape"] = shape
+                r1 = [{"op": "input", "name": "x"}, rv]
+                r1.append({"op": "flat", "args": [1]})
+                if dt == "bool":
+                    back = 0                    # answer with rank 1's own input
+                else:
+                    r1.append({"op": "addc", "a": 2, "c": 1})
+                    back = len(r1) - 1
+                r1.append({"op": "send", "data": back, "dst": 0, "tag": 1, "pass": 2})
+                bdt = spec_dtype(r1, back)
+                rb = {"op": "recv", "src": 1, "tag": 1, "variant": 0}
+                if bdt != "int64":
+                    rb["dtype"] = bdt
+                r0.append(rb)
+                rbi = len(r0) - 1
+                r0.append({"op": "flat", "args": [K]})
+                fk = len(r0) - 1
+                if dt == "bool":
+                    outs0 = [["aux", hold], ["k", fk], ["res", rbi]]
+                else:
+                    r0.append({"op": "add", "a": fk, "b": rbi})
+                    outs0 = [["aux", hold], ["res", len(r0) - 1]]
+                yield {"nranks": 2, "n": n, "topology": "kinds", "tags": [["i", 100], ["i", 101]],
+                       "ranks": [{"nodes": r0, "outputs": outs0},
+                                 {"nodes": r1, "outputs": [["aux", len(r1) - 1]]}],
+                       "seed": 0, "index": idx, "profile": "kinds",
+                       "family": {"kind": kind, "bare": bare, "dtype": dt}}
+                idx += 1
